@@ -160,64 +160,39 @@ def r09b(ck, prog):
             ck.violation("R09b", "R09b/kalign.h/%s-alias" % n, prog.rel(prog.macros[n]["loc"]),
                          "%s and %s have the same value %d" % (n, byval[v], v), prog.config)
         byval[v] = n
-    switches = {}
-    for sw in fn.body.find("SwitchStmt"):
-        cond = sw.child("cond")
-        if not any(r.d["name"] == "type" and r.d.get("dk") == "Parm" for r in cond.refs()):
-            continue
-        kind = None
-        for c, pol in guards(sw):
-            for lit in c.find("IntegerLiteral"):
-                if "ALN_BIOTYPE_DNA" in lit.mac and pol:
-                    kind = "nucleotide"
-                if "ALN_BIOTYPE_PROTEIN" in lit.mac and pol:
-                    kind = "protein"
-            if kind:
-                break
-        if kind is None:
-            # or under a case of an outer switch(biotype)
-            for anc in sw.ancestors():
-                if anc.k == "SwitchStmt" and any(r.d["name"] == "biotype" for r in anc.child("cond").refs()):
-                    for labels, stmts in switch_table(anc):
-                        if any(sw.within(st) or sw is st for st in stmts):
-                            for lab in labels:
-                                if lab[0] == "case" and lab[2] == "ALN_BIOTYPE_DNA":
-                                    kind = "nucleotide"
-                                if lab[0] == "case" and lab[2] == "ALN_BIOTYPE_PROTEIN":
-                                    kind = "protein"
-                    break
-        if kind is None:
-            raise AnalysisBroken("R09b: switch(type) at %s is not under a biotype test" % sw.loc)
-        switches[kind] = sw
-    if set(switches) != {"nucleotide", "protein"}:
-        raise AnalysisBroken("R09b slot: expected one switch(type) per sequence kind, found %s" % sorted(switches))
-    for kind, sw in switches.items():
-        table = switch_table(sw)
-        action = {}
-        default = None
-        for labels, stmts in table:
-            setters = sorted({c.callee for s in stmts for c in s.calls() if c.callee and c.callee.startswith("set_subm_gaps")})
-            rejects = has_goto(stmts)
-            for lab in labels:
-                if lab[0] == "default":
-                    default = (setters, rejects, lab[3])
-                else:
-                    nm = lab[2] if lab[2] in consts else byval.get(lab[1])
-                    action[nm] = (setters, rejects, lab[3])
+    # the (sequence kind x type constant) table, read off by evaluating aln_param_init once per pair (kcheck/scenario.py): which
+    # parameter setter is called, or whether the error exit is taken - however the dispatch is written (two switches, one
+    # switch over a combined key, a table of function pointers indexed by constants is NOT covered: no verdict)
+    from ..scenario import Run, Undecided
+    pn = {p_["name"] for p_ in fn.params}
+    if not {"biotype", "type"} <= pn:
+        raise AnalysisBroken("R09b slot: aln_param_init has no parameters named biotype / type (%s)" % sorted(pn))
+    bio = {"nucleotide": prog.macro_int("ALN_BIOTYPE_DNA"), "protein": prog.macro_int("ALN_BIOTYPE_PROTEIN")}
+    setter_names = tuple(sorted({c.callee for c in fn.body.calls() if c.callee and c.callee.startswith("set_subm_gaps")} |
+                                {f_.name for f_ in prog.lib_functions() if f_.name.startswith("set_subm_gaps")}))
+    for kind, bv in bio.items():
         used = {}
+        acts = {}
+        for name in sorted(consts):
+            r = Run(prog, fn, {"biotype": bv, "type": consts[name]}, fork=True, keep=setter_names)
+            try:
+                tr = r.run()
+            except Undecided as e:
+                raise AnalysisBroken("R09b: aln_param_init is not evaluated for (%s, %s): %s" % (kind, name, e))
+            odd = [f_ for f_ in r.forks if not any(w in f_ for w in ("gpo", "gpe", "tgpe"))]
+            if odd or any(t[0] == "call" and not t[1] for t in tr):
+                raise AnalysisBroken("R09b: for (%s, %s) aln_param_init's choice depends on something the scenario does not fix (%s): a "
+                                     "table-driven dispatch is not decided" % (kind, name, (odd or ["a call through a function pointer"])[0][:60]))
+            setters = sorted({t[1] for t in tr if (t[1] or "").startswith("set_subm_gaps")})
+            rejects = any(x.k == "GotoStmt" or (x.k == "ReturnStmt" and x not in fn.success_returns()) for x in r.exits) and \
+                not any(x.k == "ReturnStmt" and x in fn.success_returns() for x in r.exits)
+            node = next((t[4] for t in tr if (t[1] or "").startswith("set_subm_gaps")), None) or (r.exits[0] if r.exits else fn)
+            acts[name] = (setters, rejects, node)
         for name in sorted(consts):
             k = kinds[name]
-            act = action.get(name, default)
-            explicit = name in action
-            where = site(prog, (act[2] if act else sw), "%s/%s" % (kind, name))
-            if act is None:
-                ck.violation("R09b", "R09b/aln_param_init/%s-switch-%s" % (kind, name), where,
-                             "%s has no case and the switch has no default" % name, prog.config)
-                continue
-            setters, rejects, _ = act
-            ck.inst("R09b", where, "%s sequences, type %s -> %s%s" % (
-                kind, name, "reject" if rejects and not setters else (",".join(setters) or "nothing"),
-                "" if explicit else " (via default)"), prog.config)
+            setters, rejects, node = acts[name]
+            where = site(prog, node, "%s/%s" % (kind, name))
+            ck.inst("R09b", where, "%s sequences, type %s -> %s" % (kind, name, "reject" if rejects and not setters else (",".join(setters) or "nothing")), prog.config)
             if k == "undefined":
                 if rejects or len(setters) != 1:
                     ck.violation("R09b", "R09b/aln_param_init/%s-switch-%s" % (kind, name), where,
@@ -227,10 +202,7 @@ def r09b(ck, prog):
             if k != kind:
                 if not rejects or setters:
                     ck.violation("R09b", "R09b/aln_param_init/%s-switch-%s" % (kind, name), where,
-                                 "%s type %s is not rejected for %s sequences: it %s" % (
-                                     k, name, kind,
-                                     "falls into the default case and selects %s" % ",".join(setters) if not explicit
-                                     else "selects %s" % ",".join(setters)), prog.config)
+                                 "%s type %s is not rejected for %s sequences: it selects %s" % (k, name, kind, ",".join(setters) or "nothing"), prog.config)
             else:
                 if rejects or len(setters) != 1:
                     ck.violation("R09b", "R09b/aln_param_init/%s-switch-%s" % (kind, name), where,
@@ -242,11 +214,10 @@ def r09b(ck, prog):
                                      "%s and %s select the same parameter set %s" % (name, used[setters[0]], setters[0]),
                                      prog.config)
                     used[setters[0]] = name
-        undefined_act = action.get("KALIGN_TYPE_UNDEFINED", default)
-        if undefined_act and undefined_act[0] and undefined_act[0][0] not in used:
-            ck.violation("R09b", "R09b/aln_param_init/%s-switch-default" % kind, site(prog, sw),
-                         "the default parameter set %s of %s sequences is not the set of any %s type" % (
-                             undefined_act[0][0], kind, kind), prog.config)
+        ua = acts.get("KALIGN_TYPE_UNDEFINED")
+        if ua and ua[0] and ua[0][0] not in used:
+            ck.violation("R09b", "R09b/aln_param_init/%s-switch-default" % kind, site(prog, fn),
+                         "the default parameter set %s of %s sequences is not the set of any %s type" % (ua[0][0], kind, kind), prog.config)
     n = sum(1 for i in ck.instances if i["rule"] == "R09b" and i["config"] == prog.config)
     ck.floor("R09b", n, 12, "(kind, type) table entries")
 
